@@ -139,31 +139,31 @@ Definition outcome_err (ds : datasource) (ign : bool) (se : sec * elem) (err : e
   | LOther c => err = EOther c
   end.
 
-Lemma add_update_loop_app ds ign ty vis : forall l1 l2 acts,
-  add_update_loop ds ign ty vis (l1 ++ l2) acts =
-  match add_update_loop ds ign ty vis l1 acts with
+Lemma add_update_loop_app nft ds ign ty vis : forall l1 l2 acts,
+  add_update_loop nft ds ign ty vis (l1 ++ l2) acts =
+  match add_update_loop nft ds ign ty vis l1 acts with
   | inr e => inr e
-  | inl a1 => add_update_loop ds ign ty vis l2 a1
+  | inl a1 => add_update_loop nft ds ign ty vis l2 a1
   end.
 Proof.
   induction l1 as [|e r IH]; intros l2 acts; [reflexivity|]. cbn.
-  destruct (check_err ign (find_previous_elem ds ign e) e); [reflexivity|].
+  destruct (check_err nft ign (find_previous_elem ds ign e) e); [reflexivity|].
   destruct (find_previous_elem ds ign e); apply IH.
 Qed.
 
-Lemma add_update_as_loop ds ign ty s acts :
-  add_update ds ign ty s acts =
-  add_update_loop ds ign ty (match ty with TDelete => false | _ => true end) (sec_elems s) acts.
+Lemma add_update_as_loop nft ds ign ty s acts :
+  add_update nft ds ign ty s acts =
+  add_update_loop nft ds ign ty (match ty with TDelete => false | _ => true end) (sec_elems s) acts.
 Proof.
   unfold add_update, sec_elems. rewrite add_update_loop_app.
-  destruct (add_update_loop ds ign ty _ (s_nodes s) acts) as [a1|]; [|reflexivity].
+  destruct (add_update_loop nft ds ign ty _ (s_nodes s) acts) as [a1|]; [|reflexivity].
   rewrite add_update_loop_app.
-  destruct (add_update_loop ds ign ty _ (s_ways s) a1); reflexivity.
+  destruct (add_update_loop nft ds ign ty _ (s_ways s) a1); reflexivity.
 Qed.
 
-Lemma add_update_loop_spec ds ign (s : sec) : ds_nonneg ds -> s <> SCreate ->
+Lemma add_update_loop_spec nft ds ign (s : sec) : ds_nonneg ds -> s <> SCreate ->
   forall es acts,
-  match add_update_loop ds ign (ty_of s) (vis_of s) es acts with
+  match add_update_loop nft ds ign (ty_of s) (vis_of s) es acts with
   | inl acts' => exists new, acts' = acts ++ new /\ Forall2 (outcome_ok ds ign) (map (pair s) es) new
   | inr err => exists pre e post new,
                  es = pre ++ e :: post /\ Forall2 (outcome_ok ds ign) (map (pair s) pre) new /\
@@ -182,7 +182,7 @@ Proof.
         { unfold outcome_ok. cbn [fst snd]. destruct s; [contradiction| |]; rewrite Eds; left; exists o;
             (split; [exact Hfp|reflexivity]). }
         specialize (IH (acts ++ [mkAction (ty_of s) None (Some o) (Some (set_vis e (vis_of s)))])).
-        destruct (add_update_loop ds ign (ty_of s) (vis_of s) r _) as [acts'|err].
+        destruct (add_update_loop nft ds ign (ty_of s) (vis_of s) r _) as [acts'|err].
         -- destruct IH as (new & Eacts & Hall).
            exists (mkAction (ty_of s) None (Some o) (Some (set_vis e (vis_of s))) :: new). split.
            ++ rewrite Eacts, <- app_assoc. reflexivity.
@@ -196,20 +196,20 @@ Proof.
            assert (Hok : outcome_ok ds true (s, e) (create_action e)).
            { unfold outcome_ok. cbn [fst snd]. destruct s; [contradiction| |]; rewrite Eds; right; auto. }
            specialize (IH (acts ++ [create_action e])).
-           destruct (add_update_loop ds true (ty_of s) (vis_of s) r _) as [acts'|err].
+           destruct (add_update_loop nft ds true (ty_of s) (vis_of s) r _) as [acts'|err].
            ++ destruct IH as (new & Eacts & Hall). exists (create_action e :: new). split.
               ** rewrite Eacts, <- app_assoc. reflexivity.
               ** cbn [map]. constructor; [exact Hok|exact Hall].
            ++ destruct IH as (pre & x & post & new & Ees & Hall & Herr).
               exists (e :: pre), x, post, (create_action e :: new). split; [rewrite Ees; reflexivity|].
               split; [cbn [map]; constructor; [exact Hok|exact Hall]|exact Herr].
-        -- exists [], e, r, []. split; [reflexivity|]. split; [constructor|].
-           split; [exact Hs|]. cbn [snd]. rewrite Eds. auto.
+        -- destruct nft; (exists [], e, r, []; split; [reflexivity|]; split; [constructor|];
+           split; [exact Hs|]; cbn [snd]; rewrite Eds; auto).
     + destruct ign eqn:Eign; cbn [check_err].
       * assert (Hok : outcome_ok ds true (s, e) (create_action e)).
         { unfold outcome_ok. cbn [fst snd]. destruct s; [contradiction| |]; rewrite Eds; auto. }
         specialize (IH (acts ++ [create_action e])).
-        destruct (add_update_loop ds true (ty_of s) (vis_of s) r _) as [acts'|err].
+        destruct (add_update_loop nft ds true (ty_of s) (vis_of s) r _) as [acts'|err].
         -- destruct IH as (new & Eacts & Hall). exists (create_action e :: new). split.
            ++ rewrite Eacts, <- app_assoc. reflexivity.
            ++ cbn [map]. constructor; [exact Hok|exact Hall].
@@ -231,8 +231,8 @@ Lemma Forall2_app_l {A B} (R : A -> B -> Prop) l1 l2 m1 m2 :
 Proof. intros H1 H2. induction H1; cbn; [exact H2|constructor; assumption]. Qed.
 
 (* ---------- the whole function ---------- *)
-Lemma annotate_change_spec ds ign c : ds_nonneg ds ->
-  match annotate_change ds ign c with
+Lemma annotate_change_spec nft ds ign c : ds_nonneg ds ->
+  match annotate_change nft ds ign c with
   | ROk acts => Forall2 (outcome_ok ds ign) (elems_in_order c) acts
   | RErr err => exists pre se post acts,
                   elems_in_order c = pre ++ se :: post /\
@@ -245,14 +245,14 @@ Proof.
   change (match TModify with TDelete => false | _ => true end) with true.
   pose proof (creates_ok ds ign (sec_elems (c_create c))) as Hc.
   set (a0 := map create_action (sec_elems (c_create c))) in *.
-  pose proof (add_update_loop_spec ds ign SModify Hds ltac:(discriminate) (sec_elems (c_modify c)) a0) as Hm.
+  pose proof (add_update_loop_spec nft ds ign SModify Hds ltac:(discriminate) (sec_elems (c_modify c)) a0) as Hm.
   cbn [ty_of vis_of] in Hm.
-  destruct (add_update_loop ds ign TModify true (sec_elems (c_modify c)) a0) as [a1|err].
+  destruct (add_update_loop nft ds ign TModify true (sec_elems (c_modify c)) a0) as [a1|err].
   - destruct Hm as (n1 & Ea1 & Hall1). rewrite add_update_as_loop.
     change (match TDelete with TDelete => false | _ => true end) with false.
-    pose proof (add_update_loop_spec ds ign SDelete Hds ltac:(discriminate) (sec_elems (c_delete c)) a1) as Hd.
+    pose proof (add_update_loop_spec nft ds ign SDelete Hds ltac:(discriminate) (sec_elems (c_delete c)) a1) as Hd.
     cbn [ty_of vis_of] in Hd.
-    destruct (add_update_loop ds ign TDelete false (sec_elems (c_delete c)) a1) as [a2|err].
+    destruct (add_update_loop nft ds ign TDelete false (sec_elems (c_delete c)) a1) as [a2|err].
     + destruct Hd as (n2 & Ea2 & Hall2). subst a2 a1. rewrite <- app_assoc.
       apply Forall2_app_l; [exact Hc|]. apply Forall2_app_l; assumption.
     + destruct Hd as (pre & e & post & new & Ees & Hall2 & Herr).
@@ -287,9 +287,9 @@ Lemma sequence_creates ds ign es :
   sequence (map (spec_elem ds ign) (map (pair SCreate) es)) = inl (map create_action es).
 Proof. induction es as [|e r IH]; cbn; [reflexivity|]. cbn in IH. rewrite IH. reflexivity. Qed.
 
-Lemma add_update_loop_sequence ds ign (s : sec) : ds_nonneg ds -> s <> SCreate ->
+Lemma add_update_loop_sequence nft ds ign (s : sec) : ds_nonneg ds -> s <> SCreate ->
   forall es acts,
-  add_update_loop ds ign (ty_of s) (vis_of s) es acts =
+  add_update_loop nft ds ign (ty_of s) (vis_of s) es acts =
   match sequence (map (spec_elem ds ign) (map (pair s) es)) with
   | inl new => inl (acts ++ new)
   | inr e => inr e
@@ -317,7 +317,7 @@ Proof.
         rewrite Hua.
         destruct (sequence (map (spec_elem ds ign) (map (pair s) r))); [|reflexivity].
         rewrite <- app_assoc. reflexivity.
-      * destruct ign; cbn [check_err]; [|reflexivity]. rewrite IH.
+      * destruct ign; cbn [check_err]; [|destruct nft; reflexivity]. rewrite IH.
         destruct (sequence (map (spec_elem ds true) (map (pair s) r))); [|reflexivity].
         rewrite <- app_assoc. reflexivity.
     + destruct ign; cbn [check_err]; [|reflexivity]. rewrite IH.
@@ -326,19 +326,19 @@ Proof.
     + reflexivity.
 Qed.
 
-Lemma annotate_change_eq_spec ds ign c : ds_nonneg ds ->
-  annotate_change ds ign c = spec_change ds ign c.
+Lemma annotate_change_eq_spec nft ds ign c : ds_nonneg ds ->
+  annotate_change nft ds ign c = spec_change ds ign c.
 Proof.
   intro Hds. unfold annotate_change, spec_change, elems_in_order.
   rewrite <- !map_app. fold (sec_elems (c_create c)). rewrite add_update_as_loop.
   change (match TModify with TDelete => false | _ => true end) with true.
   rewrite !map_app, !sequence_app, sequence_creates.
-  rewrite (add_update_loop_sequence ds ign SModify Hds ltac:(discriminate)).
+  rewrite (add_update_loop_sequence nft ds ign SModify Hds ltac:(discriminate)).
   destruct (sequence (map (spec_elem ds ign) (map (pair SModify) (sec_elems (c_modify c))))) as [n1|e1];
     [|reflexivity].
   rewrite add_update_as_loop.
   change (match TDelete with TDelete => false | _ => true end) with false.
-  rewrite (add_update_loop_sequence ds ign SDelete Hds ltac:(discriminate)).
+  rewrite (add_update_loop_sequence nft ds ign SDelete Hds ltac:(discriminate)).
   destruct (sequence (map (spec_elem ds ign) (map (pair SDelete) (sec_elems (c_delete c))))) as [n2|e2];
     [|reflexivity].
   rewrite <- app_assoc. reflexivity.
